@@ -814,13 +814,15 @@ func c04Values(repo, out string, args []string) error {
 	}
 
 	var b strings.Builder
-	b.WriteString("/-\n  GENERATED by /verif/go/facts (mode c04.values) from /repo/formats/ply/writer_vector{1,3,4}.go and reader_vector{1,3,4}.go.\n  Do not edit: regenerated by ./check before every build.\n-/\nnamespace PolyVerif.Gen.PlyValues\n\n")
+	b.WriteString("/-\n  GENERATED by /verif/go/facts (mode c04.values) from /repo/formats/ply/writer_vector{1,2,3,4}.go and reader_vector{1,2,3,4}.go.\n  Do not edit: regenerated by ./check before every build.\n-/\nnamespace PolyVerif.Gen.PlyValues\n\n")
 	fmt.Fprintf(&b, "/-- %s  builtVector1PropertyWriter.Write: `case T…:` (constants, store, expression in the float64 component `v`), source order; the default case panics -/\ndef v1BinWrite : List (List String × String × String) :=\n  [%s]\n\n", tb.at(bw), strings.Join(binWrite, ",\n   "))
 	fmt.Fprintf(&b, "/-- %s  asciiVector1PropertyWriter.Write: (constants, strconv call with its format arguments, expression printed); the default case panics -/\ndef v1AsciiWrite : List (List String × String × String) :=\n  [%s]\n\n", ta.at(aw), strings.Join(asciiWrite, ",\n   "))
 	fmt.Fprintf(&b, "/-- %s  builtVector1PropertyReader.Read: (constants, expression in the bytes `wire` at the reader's offset); the default case panics -/\ndef v1BinRead : List (List String × String) :=\n  [%s]\n\n", tr.at(br), strings.Join(binRead, ",\n   "))
 	fmt.Fprintf(&b, "/-- %s  builtAsciiVector1PropertyReader.Read: bit size of `strconv.ParseFloat(buf[offset], ·)` -/\ndef v1AsciiReadBits : Nat := %s\n\n", tq.at(ar), bits)
 	fmt.Fprintf(&b, "/-- … and the conditional post-processing `if scalarType == T { v /= K }` (constant, expression) -/\ndef v1AsciiReadPost : List (String × String) :=\n  [%s]\n\n", strings.Join(post, ", "))
 	for _, sp := range []c04vSpec{
+		{2, "writer_vector2.go", "reader_vector2.go", "builtVector2PropertyWriter", "asciiVector2PropertyWriter", "builtVector2PropertyReader",
+			[]string{"X", "Y"}, []string{"xOffset", "yOffset"}},
 		{3, "writer_vector3.go", "reader_vector3.go", "builtVector3PropertyWriter", "asciiVector3PropertyWriter", "builtBinaryVector3PropertyReader",
 			[]string{"X", "Y", "Z"}, []string{"xOffset", "yOffset", "zOffset"}},
 		{4, "writer_vector4.go", "reader_vector4.go", "binaryVector4PropertyWriter", "asciiVector4PropertyWriter", "builtVector4PropertyReader",
